@@ -374,6 +374,23 @@ package ggql
 //@           invariant[found] len(errs) > 0 <==> badInputFieldUpTo(t.fields.list, rangeindex+1)
 //@           decreases len(t.fields.list) - rangeindex
 
+//@ -- enums: at least one value; a value is a well-formed name, not reserved, and none of true, false, null
+//@ spec badEnumValue(ev *EnumValue, core bool) bool = ev.Value == "true" || ev.Value == "false" || ev.Value == "null" || !goodName(ev.Value, core)
+//@ spec badEnumValueUpTo(vs []*EnumValue, core bool, n int) bool = exists i int {vs[i]} :: 0 <= i && i < n && badEnumValue(vs[i], core)
+//@ func (*Enum).Validate
+//@   props C13
+//@   check panic {C03}
+//@   requires t != nil && root != nil
+//@   requires forall i int {t.values.list[i]} :: 0 <= i && i < len(t.values.list) ==> t.values.list[i] != nil
+//@   ensures[no-values] len(old(t.values.list)) == 0 ==> len(errs) > 0
+//@   ensures[bad-value] badEnumValueUpTo(old(t.values.list), old(t.core), len(old(t.values.list))) ==> len(errs) > 0
+//@   use validDefEnum(t)
+//@   loop 0: invariant[bounds] rangeindex+1 <= len(t.values.list)
+//@           invariant[found] badEnumValueUpTo(t.values.list, t.core, rangeindex+1) ==> len(errs) > 0
+//@           decreases len(t.values.list) - rangeindex
+//@   loop 1: invariant[outer-bounds] 0 <= rangeindex_outer+1 && rangeindex_outer+1 < len(t.values.list)
+//@           invariant[found] badEnumValueUpTo(t.values.list, t.core, rangeindex_outer+2) ==> len(errs) > 0
+
 //@ -- ------------------------------------------------------------------ the whole-table check
 //@ -- validDef(t): t satisfies the rules of its kind. Validate of every kind answers "no error iff validDef"; the
 //@ -- definition of validDef per kind is given next to that kind's Validate (union, interface, input object so far;
@@ -386,6 +403,10 @@ package ggql
 //@   assigns fresh, H_ArgValue.Value, H_Arg.Default, H_InputField.Default
 //@ axiom validDefUnion(t *Union): t != nil ==> (validDef(box(t)) <==> (len(t.Members) > 0 && !nonObjectMember(t.Members, len(t.Members))))
 //@ axiom validDefInterface(t *Interface): t != nil ==> (validDef(box(t)) <==> (len(t.fields.list) > 0 && !badFieldUpTo(t.fields.list, len(t.fields.list))))
+//@ axiom validDefEnum(t *Enum): t != nil ==> (validDef(box(t)) <==> (len(t.values.list) > 0 && !badEnumValueUpTo(t.values.list, t.core, len(t.values.list))))
+//@ -- type expressions are not entries of the type table and have no rules of their own
+//@ axiom validDefList(t *List): t != nil ==> validDef(box(t))
+//@ axiom validDefNonNull(t *NonNull): t != nil ==> validDef(box(t))
 //@ axiom validDefInput(t *Input): t != nil ==> (validDef(box(t)) <==> (len(t.fields.list) > 0 && !badInputFieldUpTo(t.fields.list, len(t.fields.list))))
 
 //@ -- the type table and the directive table hold real types
